@@ -459,3 +459,49 @@ def rich_case(draw, tier="quick"):
     c["cache_set_fails"] = prob(draw, 0.1)  # the cache backend's set() raises (quota, unpicklable, ...)
     c["bad_on_missing"] = prob(draw, 0.05)  # an invalid on_missing value: the call must be rejected up front
     return c
+
+
+# ------------------------------------------------------------------------------------
+# the same program, declared in a roundabout way (external names, defaults and types unchanged)
+# ------------------------------------------------------------------------------------
+
+
+def present(nodes, mode, keep_fid=False, warm=True):
+    """swap = the function's first two parameters carry each other's names and ONE with_inputs call swaps them back (the node
+    is inspected first, so its lazily cached attributes are filled before the derivation);
+    wrap = the node sits alone in a nested graph under inner parameter names, and the wrapper's inputs are renamed back.
+    keep_fid: the generated function keeps its identity in logged calls / result terms (reference evaluators see no difference)."""
+    out = []
+    for n in nodes:
+        if n["k"] != "func" or n.get("renames") or n.get("rename_inputs"):
+            out.append(n)
+            continue
+        ps = n.get("params", [])
+        if mode == "swap" and len(ps) >= 2:
+            a, b = ps[0], ps[1]
+            sw = {a: b, b: a}
+            m = dict(n)
+            m["params"] = [sw.get(x, x) for x in ps]
+            m["defaults"] = {sw.get(k, k): v for k, v in n.get("defaults", {}).items()}
+            if n.get("ann"):
+                m["ann"] = {sw.get(k, k): v for k, v in n["ann"].items()}
+            if n.get("mutates"):
+                m["mutates"] = [sw.get(k, k) for k in n["mutates"]]
+            m["renames"] = ([{"kind": "warm"}] if warm else []) + [{"kind": "inputs", "map": {a: b, b: a}}]
+            if not keep_fid:
+                m["fid"] = n.get("fid", n["name"]) + "~swapped"
+            out.append(m)
+        elif mode == "wrap" and ps and not n.get("emit") and not n.get("wait_for"):
+            inn = {p_: p_ + "_in" for p_ in ps}
+            core = dict(n)
+            core["name"] = n["name"] + "_core"
+            core["fid"] = n.get("fid", n["name"]) + ("" if keep_fid else "~core")
+            core["params"] = [inn[x] for x in ps]
+            core["defaults"] = {inn[k]: v for k, v in n.get("defaults", {}).items() if k in inn}
+            if n.get("ann"):
+                core["ann"] = {inn.get(k, k): v for k, v in n["ann"].items()}
+            out.append({"k": "graph", "name": n["name"], "graph": {"nodes": [core], "name": n["name"]}, "outs": list(n.get("outs", [])), "params": list(ps),
+                        "renames": [{"kind": "inputs", "map": {v: k for k, v in inn.items()}}]})
+        else:
+            out.append(n)
+    return out
